@@ -40,8 +40,18 @@ def _run_chunk(arg):
                 try:
                     r = chk.evaluate(c)
                 except Exception as e:  # noqa
-                    out["error"] = f"case {c!r}: " + traceback.format_exc()
-                    break
+                    # an exception raised inside jade's own code on a case of the (valid) domain is a
+                    # verdict about jade; anything else is a bug of the checker
+                    tb = traceback.extract_tb(e.__traceback__)
+                    inner = tb[-1].filename if tb else ""
+                    jade_frames = [f for f in tb if f.filename.startswith(boot.REPO + "/")]
+                    if jade_frames and (inner.startswith(boot.REPO + "/") or "/site-packages/" in inner or "/lib/python" in inner):
+                        f = jade_frames[-1]
+                        r = [V(f"exception:{type(e).__name__}@{os.path.basename(f.filename)}:{f.name}",
+                               f"jade raised {type(e).__name__}: {e} in {os.path.basename(f.filename)}:{f.lineno} ({f.name}) on case {chk.show(c)!r}"[:1500])]
+                    else:
+                        out["error"] = f"case {c!r}: " + traceback.format_exc()
+                        break
                 wt = chk.weight(c)
                 out["n"] += wt
                 k = chk.kind(c)
